@@ -379,6 +379,22 @@ static void op_c11(void)
 	free(pat);
 }
 
+/* op rr S: re_read() on an exactly sized heap copy of S (delimiter first): prints found consumed-bytes result-length;
+ * a scanner that steps over the terminator is a heap overflow here */
+static void op_rr(void)
+{
+	char *src = unhex(args[1]);
+	int n = strlen(src);
+	char *buf = malloc(n + 1);
+	char *s = buf, *r;
+	memcpy(buf, src, n + 1);
+	r = re_read(&s);
+	printf("%d %d %d\n", r != NULL, (int) (s - buf), r ? (int) strlen(r) : -1);
+	free(r);
+	free(buf);
+	free(src);
+}
+
 static void op_ndept(void)
 {
 	printf("%d\n", re_verif_ndept());
@@ -404,6 +420,7 @@ int main(void)
 		else if (!strcmp(args[0], "re")) op_re();
 		else if (!strcmp(args[0], "rs")) op_rs();
 		else if (!strcmp(args[0], "ndept")) op_ndept();
+		else if (!strcmp(args[0], "rr")) op_rr();
 		else if (!strcmp(args[0], "c11")) op_c11();
 		else if (!strcmp(args[0], "quit")) break;
 		else printf("ERR unknown op\n");
